@@ -100,7 +100,7 @@ define("C07", "Properties/C07.v", ["C15_inst.v"], [("msg", [])],
        "Theorems: serialize gives 0xD3 + 16-bit length (top six bits zero) + payload + CRC-24Q, a well-formed frame, for every payload up to 1023 bytes; parse(serialize(m)) = m (equal object) with validation on or off; serialize(parse(f)) = f for every valid frame; CPython's bytes-literal printer and reader (modelled exactly) are inverse on every byte string, so eval(repr(m)) rebuilds the payload.",
        "builder payloads of all identities + unknown types at boundary sizes 2,3,255,256,1022,1023; eval(repr()) run for real on the implementation",
        ["pyrepr/pyeval are a Gallina model of CPython's bytes literal syntax, validated against Python on all 256 byte values and quote mixes"])
-define("C13", "Properties/C13.v", [], [("msg", [])],
+define("C13", "Properties/C13.v", ["C02_inst.v"], [("msg", []), ("reader", [])],
        "Theorems (near-definitional by design): the model is a pure function of (tables, bytes, option): running any history of operations leaves the tables unchanged and the last result equals a fresh construction. The substance is the correspondence: every result obtained on the implementation after shuffled histories, interleaved failing parses and under 8 threads with a 1 microsecond switch interval is compared with this pure function, and a deep structural hash of all tables is compared before and after. PARTIAL: thread interleavings themselves cannot be exhibited by a Gallina function.",
        "corpus of all identities + failing payloads replayed in shuffled orders, twice, and by 8 threads; table hash before/after",
        ["thread scheduling is the runtime's; only sampled interleavings are exercised"])
